@@ -395,8 +395,50 @@ func unmarshalBlob(fr *frame, codec string, data []value, dt types.Type, dst *va
 		storeMerge(codec, dt, dst, c)
 		return true, ""
 	}
+	if codec == "json" {
+		// a document of one JSON kind never decodes into a Go value of another kind: encoding/json
+		// reports an UnmarshalTypeError (the destination is left as it was)
+		if sk, dk := jsonKind(b.typ), jsonKind(dt); sk != "" && dk != "" && sk != dk {
+			return false, fmt.Sprintf("jsonerr:json: cannot unmarshal %s into Go value of type %s", sk, dt)
+		}
+	}
 	// interface{} target: unsupported
 	return false, fmt.Sprintf("type mismatch: encoded %s, decoding into %s", b.typ, dt)
+}
+
+// jsonKind: the kind of JSON document a value of type t encodes to ("" = not known here).
+func jsonKind(t types.Type) string {
+	for depth := 0; depth < 8; depth++ {
+		if nt, ok := t.(*types.Named); ok && (hasMethod(nt, "MarshalJSON") || hasMethod(nt, "MarshalText") || hasMethod(nt, "UnmarshalJSON") || hasMethod(nt, "UnmarshalText")) {
+			return ""
+		}
+		switch u := t.Underlying().(type) {
+		case *types.Pointer:
+			t = u.Elem()
+			continue
+		case *types.Basic:
+			switch {
+			case u.Kind() == types.String:
+				return "string"
+			case u.Kind() == types.Bool:
+				return "bool"
+			case u.Info()&types.IsNumeric != 0:
+				return "number"
+			}
+			return ""
+		case *types.Struct, *types.Map:
+			return "object"
+		case *types.Slice:
+			if b, ok := u.Elem().Underlying().(*types.Basic); ok && b.Kind() == types.Uint8 {
+				return "string"
+			}
+			return "array"
+		case *types.Array:
+			return "array"
+		}
+		return ""
+	}
+	return ""
 }
 
 // storeMerge stores decoded value c into *dst. encoding/json decodes INTO the existing destination:
